@@ -9,6 +9,9 @@ Events (nested int lists):
   [5, idx]              dispatcher.subscribe(objs[idx])
   [6, kind]             dispatcher.create_or_get_observer(cls)
   [7]                   snapshot of everything publicly visible
+  [8, job, machine]     env.step((job, machine)) (env mode only)
+Successful dispatch / reset / env-step events return the indices of the
+observer objects that were notified, in notification order.
 Outputs: [0, payload] on success, [code] when an exception was raised;
 snapshots are returned bare.
 """
@@ -55,7 +58,8 @@ def _observer_classes():
         d = obs.dispatcher
         return [tag, [enc_sop(sop)] if sop is not None else [], enc_dstate(d),
                 d.schedule.makespan(), [key(o) for o in d.scheduled_operations()],
-                d.current_time()]
+                d.current_time(), [key(o) for o in d.unscheduled_operations()],
+                [key(o) for o in d.available_operations()]]
 
     class Rec(DispatcherObserver):
         def __init__(self, dispatcher, *, subscribe=True):
@@ -114,13 +118,54 @@ def enc_obs(o, dispatcher):
 
 
 class ImplSession:
-    def __init__(self, spec, filters):
+    def __init__(self, spec, filters, env=None):
         common.import_impl()
         from job_shop_lib.dispatching import Dispatcher
 
         self.instance = common.build_instance(spec)
-        self.dispatcher = Dispatcher(self.instance, ready_operations_filter=make_filter(filters))
+        self.env = None
+        self.calls = []
         self.objs = []
+        if env is None:
+            self.dispatcher = Dispatcher(self.instance, ready_operations_filter=make_filter(filters))
+        else:
+            self.env = make_env(self.instance, filters, env)
+            self.dispatcher = self.env.dispatcher
+            for o in self.dispatcher.subscribers:
+                self._wrap(o, None)
+
+    # -- call-order instrumentation (harness side, on the observer OBJECTS) --
+    def _wrap(self, o, idx):
+        if getattr(o, "_verif_wrapped", False):
+            return
+        upd, rst = o.update, o.reset
+        calls = self.calls
+        holder = {"idx": idx}
+
+        def update(sop, _u=upd):
+            calls.append(holder["idx"])
+            return _u(sop)
+
+        def reset(_r=rst):
+            calls.append(holder["idx"])
+            return _r()
+
+        try:
+            o.update = update
+            o.reset = reset
+            o._verif_wrapped = True
+            o._verif_holder = holder
+        except AttributeError:
+            pass
+
+    def _register(self, o):
+        self.objs.append(o)
+        idx = len(self.objs) - 1
+        if getattr(o, "_verif_wrapped", False):
+            o._verif_holder["idx"] = idx
+        else:
+            self._wrap(o, idx)
+        return idx
 
     def op(self, k):
         return self.instance.jobs[k[0]][k[1]]
@@ -133,12 +178,14 @@ class ImplSession:
     def snapshot(self):
         d = self.dispatcher
         subs = []
-        for s in d.subscribers:
-            idx = [i for i, o in enumerate(self.objs) if o is s]
-            subs.append(idx[0] if idx else 10 ** 6)
+        if self.env is None:
+            for s in d.subscribers:
+                idx = [i for i, o in enumerate(self.objs) if o is s]
+                subs.append(idx[0] if idx else 10 ** 6)
         return [enc_dstate(d), d.schedule.is_complete(), d.schedule.makespan(),
                 d.schedule.num_scheduled_operations, subs,
-                [enc_obs(o, d) for o in self.objs]]
+                [enc_obs(o, d) for o in self.objs] if self.env is None else [],
+                deep_digest(self)]
 
     def query(self, q, arg):
         d = self.dispatcher
@@ -174,6 +221,13 @@ class ImplSession:
             return d.is_ongoing(self.sop(arg))
         if q == 14:
             return key(d.next_operation(arg))
+        if q == 15:
+            return d.min_start_time([self.op(k) for k in arg])
+        if q == 16:
+            from job_shop_lib.dispatching import ready_operations_filter_factory
+
+            f = ready_operations_filter_factory(FILTER_NAMES[arg[0]])
+            return [key(o) for o in f(d, [self.op(k) for k in arg[1]])]
         raise ValueError(q)
 
     def run_event(self, ev):
@@ -184,17 +238,21 @@ class ImplSession:
         try:
             if tag == 0:
                 m = ev[3][0] if ev[3] else None
+                del self.calls[:]
                 d.dispatch(self.op(ev[1:3]), m)
-                out = []
+                out = self.notified()
             elif tag == 1:
                 out = self.query(ev[1], ev[2])
             elif tag == 2:
-                d.reset()
-                out = []
+                del self.calls[:]
+                if self.env is not None:
+                    self.env.reset()
+                else:
+                    d.reset()
+                out = self.notified()
             elif tag == 3:
                 o = observer_classes()[ev[1]](d)
-                self.objs.append(o)
-                out = len(self.objs) - 1
+                out = self._register(o)
             elif tag == 4:
                 d.unsubscribe(self.objs[ev[1]])
                 out = []
@@ -204,22 +262,121 @@ class ImplSession:
             elif tag == 6:
                 o = d.create_or_get_observer(observer_classes()[ev[1]])
                 idx = [i for i, x in enumerate(self.objs) if x is o]
-                if not idx:
-                    self.objs.append(o)
-                    idx = [len(self.objs) - 1]
-                out = idx[0]
+                out = idx[0] if idx else self._register(o)
+            elif tag == 8:
+                del self.calls[:]
+                self.last_step = self.env.step((ev[1], ev[2]))
+                out = self.notified()
             else:
                 raise ValueError(tag)
         except Exception as e:  # pylint: disable=broad-except
-            return [common.exn_code(e)]
+            self.exc_calls = list(self.calls)
+            return [common.exn_code(e)] + ([["notified-despite-exception"]] if self.calls and tag in (0, 8) else [])
         return [0, common.norm(out)]
+
+    def notified(self):
+        if self.env is not None:
+            return []   # the env's own observers are not part of the model world
+        return [c if c is not None else 10 ** 6 for c in self.calls]
 
     def run(self, events):
         return [self.run_event(ev) for ev in events]
 
 
-def run_session(spec, filters, events):
-    return ImplSession(spec, filters).run(events)
+GRAPH_BUILDERS = ["build_disjunctive_graph", "build_agent_task_graph",
+                  "build_complete_agent_task_graph", "build_agent_task_graph_with_jobs"]
+
+
+def make_env(instance, filters, cfg):
+    from job_shop_lib import graphs
+    from job_shop_lib.reinforcement_learning import SingleJobShopGraphEnv, MakespanReward, IdleTimeReward
+    from job_shop_lib.dispatching import DispatcherObserverConfig
+    from job_shop_lib.dispatching.feature_observers import FeatureObserverType
+
+    g = getattr(graphs, GRAPH_BUILDERS[cfg.get("builder", 0)])(instance)
+    types = [FeatureObserverType.IS_READY, FeatureObserverType.DURATION, FeatureObserverType.IS_SCHEDULED,
+             FeatureObserverType.POSITION_IN_JOB, FeatureObserverType.REMAINING_OPERATIONS,
+             FeatureObserverType.IS_COMPLETED]
+    fo = [DispatcherObserverConfig(types[i]) for i in cfg.get("features", [0])]
+    rw = DispatcherObserverConfig(class_type=IdleTimeReward if cfg.get("idle") else MakespanReward)
+    return SingleJobShopGraphEnv(g, fo, reward_function_config=rw,
+                                 ready_operations_filter=make_filter(filters),
+                                 use_padding=bool(cfg.get("padding", 1)))
+
+
+def _jsonable(v):
+    import numpy as np
+
+    if isinstance(v, np.ndarray):
+        return [_jsonable(x) for x in v.tolist()]
+    if isinstance(v, float):
+        return "nan" if v != v else v
+    if isinstance(v, (list, tuple)):
+        return [_jsonable(x) for x in v]
+    if isinstance(v, dict):
+        return {str(k): _jsonable(x) for k, x in v.items()}
+    if isinstance(v, (set, frozenset)):
+        return sorted(_jsonable(x) for x in v)
+    if hasattr(v, "job_id") and hasattr(v, "position_in_job"):
+        return ["op", v.job_id, v.position_in_job]
+    if hasattr(v, "operation") and hasattr(v, "start_time"):
+        return ["sop"] + enc_sop(v)
+    if isinstance(v, (int, str, bool)) or v is None:
+        return v
+    if hasattr(v, "item"):
+        return v.item()
+    return repr(type(v))
+
+
+def deep_state(sess):
+    """Everything publicly visible of the dispatcher, its observers and the
+    environment, as a JSON-able value (used only for before/after equality)."""
+    import collections
+
+    d = sess.dispatcher
+    out = {"d": enc_dstate(d), "n": d.schedule.num_scheduled_operations,
+           "subs": [type(s).__name__ + str(id(s)) for s in d.subscribers],
+           "queries": [_jsonable(d.current_time()), _jsonable(d.available_operations()),
+                       _jsonable(d.raw_ready_operations()), _jsonable(d.unscheduled_operations()),
+                       _jsonable(d.scheduled_operations()), _jsonable(d.completed_operations()),
+                       _jsonable(d.uncompleted_operations()), _jsonable(d.ongoing_operations()),
+                       sorted(d.available_machines()), sorted(d.available_jobs())]}
+    obs = []
+    for s in d.subscribers:
+        st = {}
+        for name, val in vars(s).items():
+            if name.startswith("_verif") or name in ("update", "reset", "dispatcher"):
+                continue
+            if isinstance(val, collections.deque):
+                val = list(val)
+            if name == "job_shop_graph":
+                val = {"removed": list(val.removed_nodes), "edges": sorted(map(list, val.graph.edges())),
+                       "nodes": sorted(val.graph.nodes())}
+            if name in ("initial_job_shop_graph", "feature_observers", "is_completed_observer",
+                        "remaining_operations", "unscheduled_operations_observer"):
+                continue
+            if isinstance(val, list) and val and isinstance(val[0], collections.deque):
+                val = [list(x) for x in val]
+            st[name] = _jsonable(val)
+        obs.append([type(s).__name__, st])
+    out["observers"] = obs
+    if sess.env is not None:
+        env = sess.env
+        out["env_obs"] = _jsonable(env.get_observation())
+        out["reward"] = _jsonable(list(env.reward_function.rewards))
+    return out
+
+
+def deep_digest(sess):
+    import hashlib
+    import json
+
+    txt = json.dumps(deep_state(sess), sort_keys=True, default=str)
+    return int(hashlib.sha1(txt.encode()).hexdigest()[:14], 16)
+
+
+def run_session(spec, filters, events, env=None):
+    return ImplSession(spec, filters, env).run(events)
 
 
 def model_case(spec, filters, events):
